@@ -3,6 +3,7 @@
 //	-part quote   : strquote.Append against the model, output read back by the reference reader
 //	-part render  : text.Marshal / Encoder.Encode on aircraftlib values against the model's render
 //	-part history : the same struct encoded N times on one Encoder
+//	-part hostile : text.Marshal on hostile messages (no panic, no hang, bounded output)
 package main
 
 import (
@@ -42,6 +43,10 @@ func run(out *Out, r *Rand, tier string, replay []string) {
 				doRenderLine(out, f)
 			case "history":
 				doHistoryLine(out, f)
+			case "hostile":
+				doHostileLine(out, f)
+			case "recrender":
+				doRecRenderLine(out, f)
 			default:
 				panic("bad case " + l)
 			}
@@ -56,6 +61,8 @@ func run(out *Out, r *Rand, tier string, replay []string) {
 		genRender(out, r, tier)
 	case "history":
 		genHistory(out, r, tier)
+	case "hostile":
+		genHostile(out, r, tier)
 	default:
 		panic("unknown part " + part)
 	}
